@@ -73,6 +73,22 @@ def gen_template(rng, i):
                 g.params.append(q)
                 lines.append("float array %s =\n    1.5, {%s}, {%s}" % (p, p, q))
                 lines.append(rng.choice(["Interferometer(%s) | [0, 1, 2]", "Kgate(U=%s) | 1", "Rgate(%s[1]) | 0"]) % p)
+        elif r < 0.43:
+            # the declared element type applies to the literal elements of an array that also holds parameters: a non-integer
+            # literal in an int array, an integer above 2**53 in a float array (the parameter gets an integer value)
+            nm = g.fresh(rng.choice(["A", "T", "arr"]))
+            p = g.fresh("nint")
+            g.params.append(p)
+            if rng.random() < 0.6:
+                elems = [rng.choice(["7/2", "2.75", "-1.5", "9/4", "3"]) for _ in range(rng.randint(1, 3))] + ["{%s}" % p]
+                ty = "int"
+            else:
+                elems = [rng.choice(["9007199254740993", "4", "0.5"]) for _ in range(rng.randint(1, 3))] + ["{%s}" % p]
+                ty = "float"
+            rng.shuffle(elems)
+            lines.append("%s array %s =\n    %s" % (ty, nm, ", ".join(elems)))
+            k = rng.randrange(len(elems))
+            lines.append(rng.choice(["Rgate(%s[%d]) | 0", "Dgate(2 * %s[%d], 0.5) | 1", "Kgate(U=%s) | [0, 1]  # %d"]) % (nm, k))
         elif r < 0.44:
             # parameter expressions that fold to a constant while parsing: {p}*0, {p}**0, {p}-{p}; with a loop variable
             # that takes the value 0 the folding happens in one iteration only
@@ -99,6 +115,9 @@ def gen_template(rng, i):
 def values_for(rng, names, arrays):
     sg = {}
     for p in names:
+        if p.startswith("nint"):
+            sg[p] = rng.randint(1, 9)
+            continue
         sg[p] = rng.choice([round(rng.uniform(0.1, 3.0), rng.randint(1, 6)), rng.randint(1, 9), -round(rng.uniform(0.1, 3.0), 3)])
     for p, (r, c) in arrays.items():
         sg[p] = [[round(rng.uniform(0.1, 3.0), 3) if rng.random() < 0.7 else rng.randint(1, 9) for _ in range(c)] for _ in range(r)]
@@ -184,7 +203,17 @@ def check_case(res, model, impl, text, names, arrays, sg, stats):
     mo = observe.model_loads(model, text)
     if mo["out"] != "ok":
         res.count("model-" + mo["out"])
-        return None
+        if mo["out"] != "unspec" or not t.parameters:
+            return None
+        # outside the model (e.g. a non-integer literal in an int array): the implementation-level predicate still applies
+        try:
+            inst = t(**sg)
+            direct = impl.loads(substitute(text, sg, arrays))
+        except Exception:  # noqa: BLE001
+            return None
+        res.count("unspec-in-model:instance-vs-substituted-text")
+        msg = compare_progs(inst, direct)
+        return ("instance differs from the program loaded from the substituted text: " + msg) if msg else None
     # reported parameters: the names written, array-valued ones expanded per element
     want = set(names)
     for p, (r, c) in arrays.items():
